@@ -2,9 +2,11 @@
 // Oracles: differential against std::optional / an (index,value) model with std::variant's ordering (C07),
 // lifetime registry (C03), contract (C05: dereferencing an empty optional / wrong alternative / wrong side).
 #include <etl/expected.hpp>
+#include <etl/inplace_vector.hpp>
 #include <etl/optional.hpp>
 #include <etl/utility.hpp>
 #include <etl/variant.hpp>
+#include <etl/vector.hpp>
 
 #if !defined(SIM_PART)
     #define SIM_PART 0
@@ -2397,6 +2399,285 @@ void add(std::string name, bool lifetime)
     registry().push_back(std::move(s));
 }
 
+// ================================================================================================ addressof
+// An element type that overloads unary operator& (the COM / smart-pointer idiom: &p yields the inner pointer). Owners
+// must reach their elements with addressof; a plain & constructs or destroys something else - typically nothing, and
+// the element leaks. The harness itself never applies & to such an element.
+struct TrackedAmp : Tracked {
+    using Tracked::Tracked;
+
+    auto operator&() -> int* { return std::addressof(this->v); }
+
+    auto operator&() const -> int const* { return std::addressof(this->v); }
+};
+
+struct AmpDriver : DriverBase<AmpDriver> {
+    using Base = DriverBase<AmpDriver>;
+    using O    = etl::optional<TrackedAmp>;
+    using V    = etl::variant<int, TrackedAmp>;
+    using X    = etl::expected<TrackedAmp, int>;
+    using SV   = etl::static_vector<TrackedAmp, 3>;
+    using IV   = etl::inplace_vector<TrackedAmp, 3>;
+
+    O* o   = nullptr;
+    V* v   = nullptr;
+    X* x   = nullptr;
+    SV* sv = nullptr;
+    IV* iv = nullptr;
+    // model: the values held (empty / one / up to three)
+    std::vector<int> m[5];
+
+    AmpDriver(Plan const& p, Ctx& c)
+        : Base(p, c)
+    {
+    }
+
+    void resync(int) { }
+
+    auto check_state(int, char const*, char const*) -> bool { return true; }
+
+    template <typename T>
+    auto place(int slot, uint64_t salt) -> void*
+    {
+        return arena_prepare(slot, sizeof(T), plan.cfg, salt, alignof(T));
+    }
+
+    void create(int k, uint64_t salt)
+    {
+        call(-1, false, false, [&] {
+            switch (k) {
+            case 0: o = new (place<O>(0, salt)) O{}; break;
+            case 1: v = new (place<V>(1, salt)) V{}; break;
+            case 2: x = new (place<X>(2, salt)) X(etl::unexpect, 1); break;
+            case 3: sv = new (place<SV>(3, salt)) SV{}; break;
+            default: iv = new (place<IV>(4, salt)) IV{}; break;
+            }
+        });
+        m[k].clear();
+    }
+
+    void destroy(int k)
+    {
+        guarded(true, [&] {
+            switch (k) {
+            case 0: o->~O(); break;
+            case 1: v->~V(); break;
+            case 2: x->~X(); break;
+            case 3: sv->~SV(); break;
+            default: iv->~IV(); break;
+            }
+        });
+        auto* lo = slot_obj(k);
+        if (reg().live_in(lo, lo + kSlotBytes / 2) != 0) {
+            ctx.violation("C03", "lifetime:alive-after-owner-destroyed", "an element that overloads operator& is still alive after its owner was destroyed");
+            reg().forget_range(lo, lo + kSlotBytes / 2);
+        }
+        arena_retire(k);
+    }
+
+    void step(Step const& st)
+    {
+        int const k      = static_cast<int>(st.a % 5);
+        char const* name = ops()[static_cast<size_t>(st.op)].name;
+        std::string const op = name;
+        begin_op(name, k);
+        int const val = 1 + static_cast<int>(static_cast<uint64_t>(st.v[0]) % 7);
+        ctx.log.kv("v", val);
+        if (op == "recreate") {
+            destroy(k);
+            create(k, static_cast<uint64_t>(ctx.step) + 2);
+            ++ctx.stateChanging;
+            ++ctx.boundaryEvents;
+            return;
+        }
+        if (op == "set") {
+            bool ok = call(k, false, false, [&] {
+                switch (k) {
+                case 0:
+                    if (st.k[0] % 2 == 0) {
+                        *o = TrackedAmp(val);
+                    } else {
+                        o->emplace(val);
+                    }
+                    break;
+                case 1:
+                    if (st.k[0] % 2 == 0) {
+                        *v = TrackedAmp(val);
+                    } else {
+                        v->emplace<1>(val);
+                    }
+                    break;
+                case 2: *x = X(etl::in_place, val); break;
+                case 3:
+                    if (sv->size() < 3) {
+                        sv->push_back(TrackedAmp(val));
+                    }
+                    break;
+                default: (void)iv->try_emplace_back(val); break;
+                }
+            });
+            if (ok) {
+                if (k <= 2) {
+                    m[k].assign(1, val);
+                } else if (m[k].size() < 3) {
+                    m[k].push_back(val);
+                }
+                ++ctx.stateChanging;
+            }
+            return;
+        }
+        if (op == "unset") {
+            bool ok = call(k, false, false, [&] {
+                switch (k) {
+                case 0: o->reset(); break;
+                case 1: *v = 5; break;
+                case 2: *x = X(etl::unexpect, 3); break;
+                case 3:
+                    if (!sv->empty()) {
+                        if (st.k[0] % 2 == 0) {
+                            sv->pop_back();
+                        } else {
+                            sv->erase(sv->begin());
+                        }
+                    }
+                    break;
+                default:
+                    if (!iv->empty()) {
+                        iv->pop_back();
+                    }
+                    break;
+                }
+            });
+            if (ok) {
+                if (k <= 2) {
+                    m[k].clear();
+                } else if (!m[k].empty()) {
+                    if (k == 3 && st.k[0] % 2 != 0) {
+                        m[k].erase(m[k].begin());
+                    } else {
+                        m[k].pop_back();
+                    }
+                }
+                ++ctx.stateChanging;
+                ++ctx.boundaryEvents;
+            }
+            return;
+        }
+        if (op == "copy") {
+            // a temporary copy of the owner, destroyed again at once
+            call(k, false, false, [&] {
+                switch (k) {
+                case 0: { O t(*o); break; }
+                case 1: { V t(*v); break; }
+                case 2: { X t(*x); break; }
+                case 3: { SV t(*sv); break; }
+                default: { IV t(*iv); break; }
+                }
+            });
+            return;
+        }
+        skip();
+    }
+
+    void observe_all()
+    {
+        uint64_t sh = hstr(plan.scenario.c_str());
+        for (int k = 0; k < 5; ++k) {
+            std::vector<int> got;
+            observe("owner of an operator&-overloading element", [&] {
+                switch (k) {
+                case 0:
+                    if (o->has_value()) {
+                        got.push_back((**o).v);
+                    }
+                    break;
+                case 1:
+                    if (v->index() == 1) {
+                        got.push_back(etl::unchecked_get<1>(*v).v);
+                    }
+                    break;
+                case 2:
+                    if (x->has_value()) {
+                        got.push_back((**x).v);
+                    }
+                    break;
+                case 3:
+                    for (auto const& e : *sv) {
+                        got.push_back(e.v);
+                    }
+                    break;
+                default:
+                    for (auto const& e : *iv) {
+                        got.push_back(e.v);
+                    }
+                    break;
+                }
+            });
+            if (got != m[k]) {
+                ctx.violation("C07", "diff:addressof-hostile-element:value", "an owner of an operator&-overloading element does not hold the expected value(s) (owner " + std::to_string(k) + ")");
+                m[k] = got;
+            }
+            auto* lo         = slot_obj(k);
+            size_t const live = reg().live_in(lo, lo + kSlotBytes / 2);
+            if (live != m[k].size()) {
+                ctx.violation("C03", live > m[k].size() ? "lifetime:leak-inside-owner" : "lifetime:missing-element",
+                              std::to_string(live) + " live operator&-overloading elements inside owner " + std::to_string(k) + ", expected " + std::to_string(m[k].size()));
+                reg().forget_range(lo, lo + kSlotBytes / 2);
+                // rebuild a clean owner so that the rest of the run is meaningful
+                guarded(true, [&] {
+                    switch (k) {
+                    case 0: o = new (slot_obj(0)) O{}; break;
+                    case 1: v = new (slot_obj(1)) V{}; break;
+                    case 2: x = new (slot_obj(2)) X(etl::unexpect, 1); break;
+                    case 3: sv = new (slot_obj(3)) SV{}; break;
+                    default: iv = new (slot_obj(4)) IV{}; break;
+                    }
+                });
+                m[k].clear();
+            }
+            if (!arena_guards_ok(k)) {
+                ctx.violation("C02", "memory:guard-damaged", "guard bytes around an owner were overwritten");
+                arena_guards_repair(k);
+            }
+            uint64_t eh = m[k].size();
+            for (int e : m[k]) {
+                eh = mix64(eh ^ static_cast<uint64_t>(e));
+            }
+            ctx.log.feed(eh);
+            sh = mix64(sh ^ eh ^ (static_cast<uint64_t>(k) << 56));
+        }
+        Base::temporaries_must_be_gone();
+        if (g_counting) {
+            states().insert(sh);
+            transitions().insert(mix64(sh ^ hstr(ctx.op)));
+        }
+    }
+
+    void run()
+    {
+        ctx.step = -1;
+        for (int k = 0; k < 5; ++k) {
+            create(k, static_cast<uint64_t>(k) + 1);
+        }
+        for (size_t i = 0; i < plan.steps.size() && !ctx.stop; ++i) {
+            ctx.step     = static_cast<int>(i);
+            g_crash.step = ctx.step;
+            step(plan.steps[i]);
+            observe_all();
+            ctx.log.nl();
+        }
+        for (int k = 0; k < 5; ++k) {
+            destroy(k);
+        }
+    }
+
+    static auto ops() -> std::vector<OpDef> const&
+    {
+        static std::vector<OpDef> const o = {{"set", 10}, {"unset", 7}, {"copy", 3}, {"recreate", 3}};
+        return o;
+    }
+};
+
 } // namespace
 
 void register_ovx_0();
@@ -2450,6 +2731,19 @@ void register_ovx_2()
         sc.maxSteps = 8;
         sc.run      = [](Plan const& p, Ctx& c) {
             InitDriver d(p, c);
+            d.run();
+        };
+        registry().push_back(std::move(sc));
+    }
+    {
+        Scenario sc;
+        sc.family   = "ovx";
+        sc.name     = "owners-of-an-element-overloading-operator&";
+        sc.ops      = AmpDriver::ops();
+        sc.props    = {"C03", "C07", "C02"};
+        sc.maxSteps = 30;
+        sc.run      = [](Plan const& p, Ctx& c) {
+            AmpDriver d(p, c);
             d.run();
         };
         registry().push_back(std::move(sc));
